@@ -19,6 +19,13 @@ func journal(s string) {
 }
 
 func runMany(t *testing.T, r *ev.Run, n int, p Params, salt int64) {
+	if hs := os.Getenv("VERIF_HIST_SEED"); hs != "" {
+		// replay of one history (use the tier the witness was produced with)
+		var seed int64
+		fmt.Sscan(hs, &seed)
+		runHistory(t, r, seed, p)
+		return
+	}
 	fails := 0
 	for i := 0; i < n; i++ {
 		seed := ev.Seed()*1_000_003 + salt*7919 + int64(i)
